@@ -42,14 +42,14 @@ Print Assumptions C32_select_none.
    some listed engine qualifies -- so "no engine returned" <=> "no listed engine qualifies" *)
 Theorem C32_select_total :
   forall T reg prefs r,
-    (forall m, In m prefs -> exists e' b, lookup m reg = Some e' /\ satisfies_conditions T e' r = Ok b) ->
+    (forall m, In m prefs -> exists e' b, lookup m reg = Some e' /\ satisfies_conditions T e' r = Ok b /\ report_raises T e' r = false) ->
     (exists n e, first_satisfying T reg prefs r = Found n e) \/ first_satisfying T reg prefs r = NoSuitable.
 Proof. exact first_total. Qed.
 Print Assumptions C32_select_total.
 
 Theorem C32_select_complete :
   forall T reg prefs r,
-    (forall m, In m prefs -> exists e' b, lookup m reg = Some e' /\ satisfies_conditions T e' r = Ok b) ->
+    (forall m, In m prefs -> exists e' b, lookup m reg = Some e' /\ satisfies_conditions T e' r = Ok b /\ report_raises T e' r = false) ->
     (exists m e', In m prefs /\ lookup m reg = Some e' /\ honours T e' r) ->
     exists n e, first_satisfying T reg prefs r = Found n e.
 Proof. exact first_complete. Qed.
